@@ -26,6 +26,7 @@ type Engine struct {
 	// IsCodecMethod reports whether fn is an Encode/Decode method that must be
 	// kept as an OBJ atom instead of being inlined.
 	IsCodecMethod func(fn *ssa.Function) bool
+	NonNilGlobals map[*ssa.Global]bool
 	paths         int
 	truncated     string
 }
@@ -250,6 +251,15 @@ func addrRoot(a *Val) *Val {
 func (e *Engine) load(st *state, addr *Val, t types.Type) *Val {
 	if me, ok := st.mem[addr.Key()]; ok {
 		return me.V
+	}
+	// sentinel errors: package-level error variables of the standard library are never nil (axiom);
+	// module-level ones only when assigned once, by their initialiser, from errors.New/fmt.Errorf.
+	if addr.Op == "global" && isErrorType(t) {
+		if g, ok := addr.Aux.(*ssa.Global); ok {
+			if !e.moduleGlobal(addr) || (e.NonNilGlobals != nil && e.NonNilGlobals[g]) {
+				return &Val{Op: "nonnil", Name: addr.Name, Type: t}
+			}
+		}
 	}
 	// field of a stored aggregate?
 	if addr.Op == "field" {
